@@ -30,7 +30,7 @@ def _t0():
         "lit": ("np", "tf"),
         "litint": (5, 7),
         "def": {"int0": 0, "intPos": 5, "intNeg": -5, "float": 0.25, "boolT": True, "boolF": False,
-                "strEmpty": "", "str": "mnist"},
+                "strEmpty": "", "str": "mnist", "strNum": "5"},
         "code": {"ListStr": "['a', 'b']", "TupleIntStr": "(5, 'x')", "Dotted": "np.empty(0)", "none": "np.empty(0)",
                  "ret": "(np.empty(0), np.empty(0))", "ret_int": "len(argv)", "ret_Dotted": "np.empty(0)",
                  "ret_TupleIntStr": "(5, 'x')"},
@@ -46,13 +46,13 @@ def _t1():
     t = _t0()
     t["id"] = "T1"
     t["names"] = {"p1": "alpha", "p2": "n_jobs", "p3": "x", "p4": "use_cache", "kw": "fit_kwargs"}
-    t["lit"] = ("left", "right")
-    t["litint"] = (1000, 2000)
-    t["typ"]["LitStr"] = "Literal['left', 'right']"
-    t["typ"]["LitInt"] = "Literal[1000, 2000]"
+    t["lit"] = ("left", "")                  # a falsy member in each Literal
+    t["litint"] = (1000, 0)
+    t["typ"]["LitStr"] = "Literal['left', '']"
+    t["typ"]["LitInt"] = "Literal[1000, 0]"
     t["typ"]["Dotted"] = "tf.data.Dataset"
     t["def"] = {"int0": 0, "intPos": 1000, "intNeg": -1, "float": 1e-07, "boolT": True, "boolF": False,
-                "strEmpty": "", "str": "left"}
+                "strEmpty": "", "str": "left", "strNum": "True"}
     t["code"] = {"ListStr": "['left']", "TupleIntStr": "(0, '')", "Dotted": "tf.data.Dataset.range(2)", "none": "operator.add(1, 2)",
                  "ret": "stdout", "ret_int": "alpha + 1", "ret_Dotted": "tf.data.Dataset.range(2)", "ret_TupleIntStr": "(0, '')"}
     t["prose"] = {"p1": "learning rate, e.g. 0.5 (see the paper, section 2.1)", "p2": "how many jobs; `-1` means all",
@@ -81,15 +81,13 @@ def random_table(seed):
     t["typ"]["Dotted"] = r.choice(("np.ndarray", "tf.Tensor", "torch.nn.Module", "pd.DataFrame"))
     t["def"] = {"int0": 0, "intPos": r.choice((1, 2, 3, 7, 10, 42, 128, 65536)), "intNeg": -r.choice((1, 2, 3, 10, 100)),
                 "float": r.choice((0.5, 0.001, 2.5, 1e-3, 0.999, 3.14159, 1e-07, 10.0)), "boolT": True, "boolF": False,
-                "strEmpty": "", "str": lit[0]}
+                "strEmpty": "", "str": lit[0], "strNum": r.choice(("5", "True", "1e3", "0", "-1", "False", "0.5"))}
     t["litint"] = (t["def"]["intPos"], t["def"]["intPos"] + 1)
     t["typ"]["LitInt"] = "Literal[%d, %d]" % t["litint"]
-    # the inner types of the composite classes vary too (the class is the constructor, not its arguments)
-    inner = r.choice((("List[str]", "['a', 'b']"), ("List[int]", "[1, 2]"), ("List[float]", "[0.5]")))
-    t["typ"]["ListStr"], t["code"]["ListStr"] = inner
-    # (argparse falls back to the *last* member of a Union: the class is "a Union ending in str")
+    # the inner types of the composite classes vary too, as far as the class semantics allow: argparse falls back to the
+    # *last* member of a Union / Tuple and to the element type of a List, so the classes are "... ending in str"
     t["typ"]["UnionIntStr"] = r.choice(("Union[int, str]", "Union[float, str]", "Union[int, float, str]"))
-    tup = r.choice((("Tuple[int, str]", "(5, 'x')"), ("Tuple[str, int]", "('x', 5)"), ("Tuple[int, int, int]", "(1, 2, 3)")))
+    tup = r.choice((("Tuple[int, str]", "(5, 'x')"), ("Tuple[float, str]", "(0.5, 'x')"), ("Tuple[int, int, str]", "(1, 2, 'x')")))
     t["typ"]["TupleIntStr"], t["code"]["TupleIntStr"], t["code"]["ret_TupleIntStr"] = tup[0], tup[1], tup[1]
 
     def sentence():
@@ -114,6 +112,23 @@ def random_table(seed):
         used.add(s)
         t["prose"][k] = s
     t["summary"] = {"one": sentence().capitalize() + ".", "multi": sentence().capitalize() + ".\n" + sentence().capitalize()}
+    return t
+
+
+def sweep_table(length):
+    """T0 with every prose exactly `length` characters long: swept over consecutive lengths, the word-wrap boundary (fixed
+    width) falls on every position of the `Defaults to <value>` sentence that follows the prose."""
+    t = _t0()
+    t["id"] = "S%d" % length
+    for i, k in enumerate(("p1", "p2", "p3", "p4", "kw", "ret")):
+        words, j = [("first", "second", "third", "fourth", "extra", "result")[i]], i
+        while len(" ".join(words)) < length:
+            words.append(_WORDS[j % len(_WORDS)])
+            j += 5
+        text = " ".join(words)[:length]
+        if text.endswith(" "):
+            text = text[:-1] + "s"
+        t["prose"][k] = text
     return t
 
 
@@ -306,6 +321,8 @@ def a_def(table, present, v, typ_toks=("none",), is_ret=False):
             return "strEmpty"
         if v == d["str"] or v == table["lit"][0]:
             return "str"
+        if v == d.get("strNum"):
+            return "strNum"
         c = a_code(table, v, typ_toks, is_ret)
         return c or "other"
     return "other"
